@@ -1,10 +1,15 @@
 import GorumsV.Props.C18
 import GorumsV.Tie.C05
 import GorumsV.Tie.C09
+import GorumsV.Props.NetFail
 /-! Tie for C18: the deletion guards of Tie/C05; digests in Tie/C18Skel.lean. -/
 section Audit
 open GorumsV.C18
 #print axioms GorumsV.Tie.C05.delGuard_good
+#print axioms GorumsV.NetP.net_no_router_after_answer
+#print axioms GorumsV.NetP.net_no_router_after_error
+#print axioms GorumsV.NetP.net_router_is_issued
+#print axioms GorumsV.NetP.chan_reachable
 #print axioms no_router_after_answer
 #print axioms router_means_unanswered
 #print axioms routers_bounded
